@@ -20,7 +20,7 @@ def write(prop, tier, seed, cfg, results, kani_res, violations, known_hits, unde
         smt_ms += r.smt_ms
         total_ms += r.total_ms
         if r.cmd:
-            checker.append("(cd /verif/.work && %s)" % r.cmd)
+            checker.append("(unit assembled by tools/extract.py from contracts/%s.rs.tpl + /repo; cd <scratch> && %s)" % (u, r.cmd))
         for t in r.trusted:
             if t not in trusted:
                 trusted.append(t)
